@@ -1,6 +1,7 @@
 package checks
 
 import (
+	"errors"
 	"bytes"
 	"fmt"
 	"math/big"
@@ -103,7 +104,17 @@ func (t *c02tuple) refVerify(env *Env, naive bool) (bool, error) {
 	if n == 0 || len(t.ys) != n || len(t.zs) != n {
 		return false, ref.ErrStatement
 	}
-	cv := func(e *banderwagon.Element) ref.Point { p, _ := ElemToRef(e); return p }
+	// an element that is not a representation of a curve point (the all-zero Go value, Z = 0, off the curve) makes
+	// the tuple invalid: the reference rejects without looking further
+	invalid := false
+	cv := func(e *banderwagon.Element) ref.Point {
+		p, ok := ElemToRef(e)
+		if !ok || !p.Affine().OnCurve() {
+			invalid = true
+			return ref.Identity()
+		}
+		return p
+	}
 	rp := &ref.MultiProof{D: cv(&t.pr.D), IPA: &ref.IPAProof{A: FrToBig(&t.pr.IPA.A_scalar)}}
 	for i := 0; i < 8; i++ {
 		rp.IPA.L = append(rp.IPA.L, cv(&t.pr.IPA.L[i]))
@@ -116,6 +127,9 @@ func (t *c02tuple) refVerify(env *Env, naive bool) (bool, error) {
 		Cs[i] = cv(t.Cs[i])
 		ys[i] = FrToBig(t.ys[i])
 		zs[i] = int(t.zs[i])
+	}
+	if invalid {
+		return false, errors.New("ref: an element of the tuple is not a curve point")
 	}
 	return env.Ref.VerifyMulti(ref.NewTranscript(t.label), rp, Cs, ys, zs, naive)
 }
@@ -256,6 +270,26 @@ func c02perts() []c02pert {
 			t.Cs = append(t.Cs, t.Cs[i])
 			t.ys = append(t.ys, t.ys[i])
 			t.zs = append(t.zs, t.zs[i])
+			return true
+		}},
+		// the Go zero value of the element type (all coordinates zero) in place of a commitment / D / L_j / R_j
+		c02pert{"C_i:zero-value", func(t *c02tuple, rng *rand.Rand, _ *Pool) bool {
+			*t.Cs[rng.Intn(len(t.Cs))] = banderwagon.Element{}
+			return true
+		}},
+		c02pert{"D:zero-value", func(t *c02tuple, rng *rand.Rand, _ *Pool) bool { t.pr.D = banderwagon.Element{}; return true }},
+		c02pert{"L_j:zero-value", func(t *c02tuple, rng *rand.Rand, _ *Pool) bool {
+			t.pr.IPA.L[rng.Intn(8)] = banderwagon.Element{}
+			return true
+		}},
+		c02pert{"R_j:zero-value", func(t *c02tuple, rng *rand.Rand, _ *Pool) bool {
+			t.pr.IPA.R[rng.Intn(8)] = banderwagon.Element{}
+			return true
+		}},
+		c02pert{"all-L-R:zero-value", func(t *c02tuple, rng *rand.Rand, _ *Pool) bool {
+			for j := 0; j < 8; j++ {
+				t.pr.IPA.L[j], t.pr.IPA.R[j] = banderwagon.Element{}, banderwagon.Element{}
+			}
 			return true
 		}},
 		c02pert{"label:other", func(t *c02tuple, rng *rand.Rand, _ *Pool) bool { t.label = t.label + "x"; return true }},
